@@ -52,12 +52,15 @@ def run(tier, argv):
     p = vlib.run_harness(hr, ["c19race", "-rounds", "12" if quick else "120"], timeout=3000, env_extra={"GORACE": "halt_on_error=0 exitcode=66"})
     err = p.stderr.decode("utf-8", "replace")
     races = err.count("WARNING: DATA RACE")
-    if p.returncode not in (0, 66):
+    if p.returncode == 67:
+        i = err.find("@@HANG")
+        bad.append({"map": "concurrent", "ops": ["goroutine mix"], "what": "the goroutines never finished (they block each other): " + err[i:i + 200].split("\n")[0] + ("; race detector: %d reports" % races)})
+    elif p.returncode not in (0, 66):
         raise vlib.Infra("c19race failed: " + err[-2000:])
     if races:
         i = err.find("WARNING: DATA RACE")
         bad.append({"map": "concurrent", "ops": ["goroutine mix"], "what": "race detector: %d reports; first: %s" % (races, err[i:i + 900])})
-    else:
+    elif p.returncode != 67:
         rep.notes["race_calls"] = summary_of(p.stderr)["calls"]
     rep.cov["evaluations"] = s["sequences"]
     rep.cov["distinct_nontrivial"] = s["sequences"]
